@@ -20,6 +20,10 @@
    `compositions` is NOT hand-written: Gen/Compositions.v is re-translated from
    utils.compositions of the current /repo on every run.                        *)
 From Coq Require Import ZArith List Bool Lia QArith.
+(* objects instead of parse trees (shared with C07 and C12): separable delta = these lines, section 8, Module ExObj
+   and their Print Assumptions.  Imported FIRST so that the names of the C08 development take precedence. *)
+From CSS Require Import Count.ObjectsModel Count.ObjectsProofs Count.ObjectsSpec Count.SampleModel
+  Count.ParseTrees Count.ParseTreesProofs Count.ParseTreesSample Count.ParseTreesExample Count.ParseTreesParams.
 From CSS Require Import Gen.Prelude Gen.Compositions Count.CompositionsSpec
   Forest.Spec Spec.Eval
   Count.Terms Count.Constructors Count.ConstructorsUnionProduct Count.ConstructorsDict
@@ -28,6 +32,7 @@ From CSS Require Import Gen.Prelude Gen.Compositions Count.CompositionsSpec
   Count.SampleModelParams Count.SampleParamsDict Count.SampleParamsSpec Count.SampleParamsUnion
   Count.SampleParamsProduct Count.SampleParamsTotals Count.SampleParamsPick Count.SampleUniformParams
   Count.SampleParamsExample Count.SampleParamsExample2.
+From CSS Require Import Count.ParseTreesSampleParams Count.ParseTreesExampleParams.
 (* translator tie of _valid_compositions (separable delta: this line, the section "tie to the source" and its two Print Assumptions) *)
 From CSS Require Gen.ProductRelianceProfile Gen.ProductValidCompositions Gen.ProductMinSizes Gen.ProductMaxSizes Count.GenBridgeValidComps.
 Import ListNotations.
@@ -508,6 +513,146 @@ Theorem C08_reject_empty_params : forall rule_of tab fuel root n P v draws,
   run (pspec_sample rule_of tab fuel root n P) draws = (Err E_INVALID_OP, [], draws).
 Proof. exact pspec_sample_reject. Qed.
 
+(* ------------------------------------------------------------ 8. OBJECTS instead of parse trees *)
+(* Sections 3 and 7 speak of parse trees.  The real sampler returns objects: the sub-samplers of
+   Rule.random_sample_object_of_size return objects and on the way up it does
+       objs = tuple(self.backward_map(subobjs)); return random.choice(objs)        (rule.py:542-543).
+   `osample` (Count/ParseTrees.v) is the tree sampler `sample` with exactly that change; `choice l` is one
+   draw of an index into the tuple l.  The C07 vocabulary supplies the objects: a specification
+   spec : nat -> option (rule obj) with the rules' backward maps, atom c (the object of an atom), fwd c (the
+   rules' forward maps), class membership In_cls, size, par, and the bijection contracts node_ok
+   (C07_objects_are_parse_trees).  `describes`: the C08 descriptor rule_of (kinds, children, minimum sizes) and
+   the C07 specification describe the same rules (union <-> RUnion, product <-> RProduct, atom <-> verification
+   rule with an object of the minimum size).  Verification rules with several objects, Complement/Quotient
+   (reverse rules) are in neither model. *)
+
+(* meaning of `sim`: two random computations that make the same draws and whose results are R-related have
+   R-compatible events of the same probability *)
+Theorem C08_sim_prob : forall (A B : Type) (R : A -> B -> Prop) (P : A -> bool) (P' : B -> bool) m m',
+  sim R m m' -> (forall a b, R a b -> P a = P' b) -> (prob P m == prob P' m')%Q.
+Proof. intros. eapply sim_prob; eassumption. Qed.
+
+(* the two notions of well-formed parse tree (C08's wf over the descriptor, twf over the C07 specification -
+   and through Iso/ParseTreesIso.v C12's wf_tree) coincide, and so do the sizes computed on the trees *)
+Theorem C08_wf_trees_coincide : forall (obj : Type) (size : obj -> Z) (spec : nat -> option (rule obj))
+    (atom : nat -> option obj) (rule_of : nat -> cls),
+  describes size spec atom rule_of ->
+  forall t c, (wf rule_of t c <-> twf spec atom t c) /\
+              (twf spec atom t c -> tsize rule_of t = tsz size atom t).
+Proof. intros. split; [eapply wf_twf; eassumption|intros; eapply tsize_tsz; eassumption]. Qed.
+
+(* THE COMPOSITION OF BACKWARD MAPS IS unparse: the object sampler runs in lock step with the tree sampler
+   (same randint / choice calls with the same ranges, same exceptions) and whenever the tree sampler returns t
+   the object sampler returns the object `unparse t`, t being a well-formed tree of the class; in particular
+   every random.choice is over a one-element tuple *)
+Theorem C08_sampler_is_unparse : forall (obj : Type) (size : obj -> Z) (In_cls : nat -> obj -> Prop)
+    (par : nat -> obj -> params) (spec : nat -> option (rule obj)) (atom : nat -> option obj)
+    (fwd : nat -> obj -> subobj obj) (rule_of : nat -> cls) (cnt : nat -> Z -> Z),
+  describes size spec atom rule_of ->
+  (forall c, node_ok size In_cls par spec atom fwd c) ->
+  forall fuel root n,
+    sim (fun t o => twf spec atom t root /\ unparse spec atom t = Some o)
+        (spec_sample rule_of cnt fuel root n) (ospec_sample spec atom rule_of cnt fuel root n).
+Proof. intros. eapply spec_sample_osample; eassumption. Qed.
+
+(* C08_uniform ON OBJECTS: under the hypotheses of C08_uniform (the counts satisfy the get_terms recurrences,
+   minimum_size_of_object / is_atom are honest) and of C07_objects_are_parse_trees (bijection contracts, closed,
+   productive), the sampler that returns objects returns EVERY OBJECT o of the root class with probability
+   exactly 1 / count(size of o), for every recursion budget above the height of o's parse tree *)
+Theorem C08_uniform_objects : forall (obj : Type) (size : obj -> Z) (In_cls : nat -> obj -> Prop)
+    (par : nat -> obj -> params) (spec : nat -> option (rule obj)) (atom : nat -> option obj)
+    (fwd : nat -> obj -> subobj obj) (rule_of : nat -> cls) (cnt : nat -> Z -> Z) (rank : nat -> Z -> nat)
+    (obj_eqb : obj -> obj -> bool),
+  describes size spec atom rule_of ->
+  (forall c, node_ok size In_cls par spec atom fwd c) ->
+  (forall c r n c' m, spec c = Some r -> 0 <= n -> In (c', m) (reads r n) -> spec c' <> None) ->
+  (forall c r n c' m, spec c = Some r -> 0 <= n -> In (c', m) (reads r n) ->
+     0 <= m /\ (rank c' m < rank c n)%nat) ->
+  (forall c o, In_cls c o -> 0 <= size o) ->
+  (forall a b, obj_eqb a b = true <-> a = b) ->
+  (forall c n, 0 <= cnt c n) ->
+  (forall c, c_kind (rule_of c) = K_ATOM -> cnt c (cmin rule_of c) = 1) ->
+  (forall c n, c_kind (rule_of c) = K_UNION ->
+     cnt c n = py_sum (map (fun ci => cnt ci n) (c_kids (rule_of c)))) ->
+  (forall c n, c_kind (rule_of c) = K_PRODUCT ->
+     cnt c n = py_sum (map (prod_counts cnt (c_kids (rule_of c)))
+                           (compositions n (zlen (c_kids (rule_of c)))
+                                         (map (cmin rule_of) (c_kids (rule_of c)))
+                                         (map (cmax rule_of) (c_kids (rule_of c)))))) ->
+  (forall c, 0 <= cmin rule_of c) ->
+  (forall c m, cnt c m <> 0 -> cmin rule_of c <= m /\ (c_atom (rule_of c) = true -> m <= cmin rule_of c)) ->
+  (forall c, c_kind (rule_of c) = K_PRODUCT ->
+     c_kids (rule_of c) <> [] /\ cmin rule_of c <= py_sum (map (cmin rule_of) (c_kids (rule_of c)))) ->
+  forall root o, spec root <> None -> In_cls root o ->
+  exists t, twf spec atom t root /\ unparse spec atom t = Some o /\
+    forall fuel, (height t < fuel)%nat ->
+      (prob (obj_eqb o) (ospec_sample spec atom rule_of cnt fuel root (size o))
+       == 1 / inject_Z (cnt root (size o)))%Q.
+Proof. intros. eapply uniform_objects; eauto. Qed.
+
+(* ... and it returns nothing else: an event that no object of a well-formed tree of the root satisfies
+   (an object of another class, for instance) has probability 0, for every size asked *)
+Theorem C08_objects_support : forall (obj : Type) (size : obj -> Z) (In_cls : nat -> obj -> Prop)
+    (par : nat -> obj -> params) (spec : nat -> option (rule obj)) (atom : nat -> option obj)
+    (fwd : nat -> obj -> subobj obj) (rule_of : nat -> cls) (cnt : nat -> Z -> Z),
+  describes size spec atom rule_of ->
+  (forall c, node_ok size In_cls par spec atom fwd c) ->
+  forall fuel root n (P : obj -> bool),
+    (forall t o, twf spec atom t root -> unparse spec atom t = Some o -> P o = false) ->
+    (prob P (ospec_sample spec atom rule_of cnt fuel root n) == 0)%Q.
+Proof. intros. eapply osample_support; eassumption. Qed.
+
+(* ... and WITH extra parameters.  opsample / opspec_sample (Count/ParseTreesParams.v) = psample / pspec_sample with
+   the sub-samplers returning objects and random.choice over backward_map of the tuple.  `pdescribes`: the
+   descriptor with parameters and the C07 specification describe the same rules; an atom's object has the minimum
+   size and the minimum values; on tuples of the children's arities the parameter maps of the C07 rules are the
+   dict_sem of the descriptor's dictionaries (for the library's constructors: C09_dictionary_maps). *)
+Theorem C08_wf_trees_coincide_params : forall (obj : Type) (size : obj -> Z) (par : nat -> obj -> ObjectsModel.params)
+    (spec : nat -> option (rule obj)) (atom : nat -> option obj) (rule_of : nat -> pcls) (tab : nat -> Z -> terms),
+  pdescribes size par spec atom rule_of ->
+  (forall c, pk_kind (rule_of c) = K_PRODUCT -> product_ok rule_of tab c) ->
+  forall t c, (pwf rule_of t c <-> twf spec atom t c) /\
+              (twf spec atom t c -> ptsize rule_of t = tsz size atom t /\ tpar rule_of t = tpr par spec atom t).
+Proof. intros. split; [eapply pwf_twf; eassumption|intros; eapply tree_measures; eassumption]. Qed.
+
+Theorem C08_sampler_is_unparse_params : forall (obj : Type) (size : obj -> Z) (In_cls : nat -> obj -> Prop)
+    (par : nat -> obj -> ObjectsModel.params) (spec : nat -> option (rule obj)) (atom : nat -> option obj)
+    (fwd : nat -> obj -> subobj obj) (rule_of : nat -> pcls) (tab : nat -> Z -> terms),
+  pdescribes size par spec atom rule_of ->
+  (forall c, node_ok size In_cls par spec atom fwd c) ->
+  tables_ok rule_of tab ->
+  (forall c, pk_kind (rule_of c) = K_PRODUCT -> product_ok rule_of tab c) ->
+  forall fuel root n P,
+    sim (fun t o => twf spec atom t root /\ unparse spec atom t = Some o)
+        (pspec_sample rule_of tab fuel root n P) (opspec_sample spec atom rule_of tab fuel root n P).
+Proof. intros. eapply pspec_sample_opsample; eassumption. Qed.
+
+(* C08_uniform_params ON OBJECTS: every object o of the root class, asked for with its size and its parameters
+   (P = the **parameters dictionary holding the tuple par root o), is returned with probability exactly
+   1 / count(root, size of o, parameters of o) *)
+Theorem C08_uniform_objects_params : forall (obj : Type) (size : obj -> Z) (In_cls : nat -> obj -> Prop)
+    (par : nat -> obj -> ObjectsModel.params) (spec : nat -> option (rule obj)) (atom : nat -> option obj)
+    (fwd : nat -> obj -> subobj obj) (rule_of : nat -> pcls) (tab : nat -> Z -> terms) (rank : nat -> Z -> nat)
+    (obj_eqb : obj -> obj -> bool),
+  pdescribes size par spec atom rule_of ->
+  (forall c, node_ok size In_cls par spec atom fwd c) ->
+  (forall c r n c' m, spec c = Some r -> 0 <= n -> In (c', m) (reads r n) -> spec c' <> None) ->
+  (forall c r n c' m, spec c = Some r -> 0 <= n -> In (c', m) (reads r n) ->
+     0 <= m /\ (rank c' m < rank c n)%nat) ->
+  (forall c o, In_cls c o -> 0 <= size o) ->
+  (forall a b, obj_eqb a b = true <-> a = b) ->
+  tables_ok rule_of tab -> contract_ok rule_of tab ->
+  (forall c, pk_kind (rule_of c) = K_ATOM -> atom_ok rule_of tab c) ->
+  (forall c, pk_kind (rule_of c) = K_UNION -> union_ok rule_of tab c) ->
+  (forall c, pk_kind (rule_of c) = K_PRODUCT -> product_ok rule_of tab c) ->
+  (forall c, pk_kind (rule_of c) = K_UNION -> fixed_honest rule_of tab c) ->
+  forall root o P, spec root <> None -> In_cls root o -> dict_for rule_of root P (par root o) ->
+  exists t, twf spec atom t root /\ unparse spec atom t = Some o /\
+    forall fuel, (height t < fuel)%nat ->
+      (prob (obj_eqb o) (opspec_sample spec atom rule_of tab fuel root (size o) P)
+       == 1 / inject_Z (pcnt tab root (size o) (par root o)))%Q.
+Proof. intros. eapply uniform_objects_params; eauto. Qed.
+
 (* ------------------------------------------------------------ non-vacuity *)
 (* All words over {a, b}:  0 = eps + a.0 + b.0  (classes: 1 = eps, 2 = a.0, 3 = a, 4 = b.0, 5 = b) *)
 Module Ex.
@@ -708,6 +853,64 @@ Module Ex.
   Proof. reflexivity. Qed.
 End Ex.
 
+(* ------------------------------------------------------------ non-vacuity, on objects *)
+(* the specification of Module Ex with its OBJECTS, the words over {a, b} (Count/ParseTreesExample.v: wab_*;
+   a = false, b = true): every hypothesis of C08_uniform_objects holds, "ab" as an OBJECT has probability 1/4,
+   and the model computes it *)
+Module ExObj.
+  Lemma ex_describes : describes wab_size wab_spec wab_atomo Ex.rule_of.
+  Proof.
+    intros c. destruct c as [|[|[|[|[|[|c]]]]]].
+    7:{ assert (E : Ex.rule_of (S (S (S (S (S (S c)))))) = Ex.mk K_EMPTY 0 false [])
+          by (unfold Ex.rule_of; simpl; destruct c; reflexivity).
+        rewrite E. simpl. split; [reflexivity|]. split; [reflexivity|]. intros a Hk. discriminate Hk. }
+    all: simpl; (split; [reflexivity|split; [reflexivity|]]);
+      intros a Hk Ha; try discriminate Hk; inversion Ha; subst; reflexivity.
+  Qed.
+
+  Example uniform_objects_hypotheses_hold :
+    forall o, wab_in 0%nat o ->
+    exists t, twf wab_spec wab_atomo t 0%nat /\ unparse wab_spec wab_atomo t = Some o /\
+      forall fuel, (height t < fuel)%nat ->
+        (prob (wab_eqb o) (ospec_sample wab_spec wab_atomo Ex.rule_of Ex.cnt fuel 0%nat (wab_size o))
+         == 1 / inject_Z (Ex.cnt 0%nat (wab_size o)))%Q.
+  Proof.
+    destruct Ex.hypotheses_hold as (H1 & H2 & H3 & H4 & H5 & H6 & H7 & _).
+    intros o Ho.
+    exact (C08_uniform_objects (list bool) wab_size wab_in wab_par wab_spec wab_atomo wab_fwd Ex.rule_of Ex.cnt wab_rank
+             wab_eqb ex_describes wab_node_ok wab_closed wab_rank_reads wab_size_nonneg wab_eqb_eq
+             H1 H2 H3 H4 H5 H6 H7 0%nat o ltac:(discriminate) Ho).
+  Qed.
+
+  Example ab_object_has_probability_one_quarter :
+    (prob (wab_eqb [false; true]) (ospec_sample wab_spec wab_atomo Ex.rule_of Ex.cnt 10 0%nat 2) == 1 / inject_Z 4)%Q /\
+    unparse wab_spec wab_atomo Ex.t_ab = Some [false; true] /\
+    parse wab_spec wab_atomo wab_fwd 10 0%nat [false; true] = Some Ex.t_ab.
+  Proof. vm_compute. repeat split; reflexivity. Qed.
+
+  Example wf_trees_coincide_nonvacuous :
+    twf wab_spec wab_atomo Ex.t_ab 0%nat /\ tsz wab_size wab_atomo Ex.t_ab = 2.
+  Proof.
+    destruct Ex.hypotheses_hold as (_ & _ & _ & _ & _ & _ & _ & Hwf & Hsz & _).
+    destruct (C08_wf_trees_coincide (list bool) wab_size wab_spec wab_atomo Ex.rule_of ex_describes Ex.t_ab 0%nat) as [A B].
+    pose proof (proj1 A Hwf) as Hw. split; [exact Hw|]. rewrite <- (B Hw). exact Hsz.
+  Qed.
+
+  Example sampler_is_unparse_nonvacuous :
+    sim (fun t o => twf wab_spec wab_atomo t 0%nat /\ unparse wab_spec wab_atomo t = Some o)
+        (spec_sample Ex.rule_of Ex.cnt 10 0%nat 2) (ospec_sample wab_spec wab_atomo Ex.rule_of Ex.cnt 10 0%nat 2).
+  Proof.
+    exact (C08_sampler_is_unparse (list bool) wab_size wab_in wab_par wab_spec wab_atomo wab_fwd Ex.rule_of Ex.cnt
+             ex_describes wab_node_ok 10%nat 0%nat 2).
+  Qed.
+
+  (* the empty word is not of size 2: never returned when size 2 is asked; computed as well *)
+  Example objects_support_nonvacuous :
+    (prob (fun o => negb (Z.eqb (wab_size o) 2)) (ospec_sample wab_spec wab_atomo Ex.rule_of Ex.cnt 10 0%nat 2) == 0)%Q.
+  Proof. vm_compute. reflexivity. Qed.
+End ExObj.
+
+
 (* ------------------------------------------------------------ non-vacuity, with parameters *)
 (* All words over {a, b} with the statistic k = number of a's (Count/SampleParamsExample.v):
    S = eps + a.S + b.S, count(S, n, k) = binomial(n, k).  Every hypothesis of C08_uniform_params holds. *)
@@ -745,6 +948,54 @@ Module ExParams.
     (prob (tree_eqb t_b_root) (pspec_sample (ex_rule true) ex_tab 10 6 1 []) == 1 / inject_Z 2)%Q.
   Proof. destruct ex_bad_probabilities as (A & B & _). split; assumption. Qed.
 End ExParams.
+
+(* ------------------------------------------------------------ non-vacuity, on objects with a parameter *)
+(* the specification of Module ExParams with its OBJECTS (Count/ParseTreesExampleParams.v: the words over {a, b},
+   a = false, parameter = number of a's): every hypothesis of C08_uniform_objects_params holds; "ab" as an object is
+   one of the 2 words of length 2 with one a *)
+Module ExObjParams.
+  Example uniform_objects_params_hypotheses_hold :
+    forall o P, wab_in 0%nat o -> dict_for (ex_rule false) 0%nat P (wabk_par 0%nat o) ->
+    exists t, twf wabk_spec wab_atomo t 0%nat /\ unparse wabk_spec wab_atomo t = Some o /\
+      forall fuel, (height t < fuel)%nat ->
+        (prob (wab_eqb o) (opspec_sample wabk_spec wab_atomo (ex_rule false) ex_tab fuel 0%nat (wab_size o) P)
+         == 1 / inject_Z (pcnt ex_tab 0%nat (wab_size o) (wabk_par 0%nat o)))%Q.
+  Proof.
+    destruct ExParams.hypotheses_hold as (H1 & H2 & H3 & H4 & H5 & H6 & _).
+    intros o P Ho HP.
+    exact (C08_uniform_objects_params (list bool) wab_size wab_in wabk_par wabk_spec wab_atomo wab_fwd (ex_rule false)
+             ex_tab wab_rank wab_eqb wabk_pdescribes wabk_node_ok wabk_closed wabk_rank_reads wab_size_nonneg
+             wab_eqb_eq H1 H2 H3 H4 H5 H6 0%nat o P ltac:(discriminate) Ho HP).
+  Qed.
+
+  Example ab_object_by_theorem :
+    (prob (wab_eqb [false; true]) (opspec_sample wabk_spec wab_atomo (ex_rule false) ex_tab 10 0%nat 2 P_k1)
+     == 1 / inject_Z 2)%Q.
+  Proof.
+    destruct ExParams.hypotheses_hold as (_ & _ & _ & _ & _ & _ & _ & _ & _ & C & D).
+    destruct (uniform_objects_params_hypotheses_hold [false; true] P_k1 I D) as (t & Hw & Hu & Hp).
+    assert (Et : t = t_ab).
+    { assert (Hw' : twf wabk_spec wab_atomo t_ab 0%nat).
+      { apply (proj1 (C08_wf_trees_coincide_params (list bool) wab_size wabk_par wabk_spec wab_atomo (ex_rule false) ex_tab
+                        wabk_pdescribes (proj1 (proj2 (proj2 (proj2 (proj2 ExParams.hypotheses_hold))))) t_ab 0%nat)).
+        exact (proj1 (proj2 (proj2 (proj2 (proj2 (proj2 (proj2 ExParams.hypotheses_hold))))))). }
+      eapply (unparse_inj wab_size wab_in wabk_par wabk_spec wab_atomo wab_fwd wabk_node_ok); try eassumption.
+      vm_compute. reflexivity. }
+    subst t. specialize (Hp 10%nat ltac:(vm_compute; lia)).
+    change (wab_size [false; true]) with 2 in Hp. change (wabk_par 0%nat [false; true]) with [1] in Hp.
+    rewrite C in Hp. exact Hp.
+  Qed.
+
+  Example sampler_is_unparse_params_nonvacuous :
+    sim (fun t o => twf wabk_spec wab_atomo t 0%nat /\ unparse wabk_spec wab_atomo t = Some o)
+        (pspec_sample (ex_rule false) ex_tab 10 0%nat 2 P_k1)
+        (opspec_sample wabk_spec wab_atomo (ex_rule false) ex_tab 10 0%nat 2 P_k1).
+  Proof.
+    destruct ExParams.hypotheses_hold as (H1 & _ & _ & _ & H5 & _).
+    exact (C08_sampler_is_unparse_params (list bool) wab_size wab_in wabk_par wabk_spec wab_atomo wab_fwd (ex_rule false)
+             ex_tab wabk_pdescribes wabk_node_ok H1 H5 10%nat 0%nat 2 P_k1).
+  Qed.
+End ExObjParams.
 
 (* ... and with dictionaries that MERGE and DROP statistics (Count/SampleParamsExample2.v): class 7 =
    the same words with statistics (k1, k2, k3) = (#a, #a, #c), a unary union to class 0 with the
@@ -1584,6 +1835,14 @@ Print Assumptions C08_union_total_params.
 Print Assumptions C08_product_total_params.
 Print Assumptions C08_draws_return_union_params.
 Print Assumptions C08_draws_return_product_params.
+Print Assumptions C08_sim_prob.
+Print Assumptions C08_wf_trees_coincide.
+Print Assumptions C08_sampler_is_unparse.
+Print Assumptions C08_uniform_objects.
+Print Assumptions C08_objects_support.
+Print Assumptions C08_wf_trees_coincide_params.
+Print Assumptions C08_sampler_is_unparse_params.
+Print Assumptions C08_uniform_objects_params.
 Print Assumptions C08_valid_compositions_is_source.
 Print Assumptions C08_helper_is_source.
 Print Assumptions C08_bounds_are_source.
